@@ -562,7 +562,7 @@ class FusionART(BaseART):
                 for w in self.W
             ]
         )
-        c_ = int(np.argmax(T))
+        c_ = self._first_max(T)
         return c_
 
     def predict(self, X: np.ndarray, skip_channels: List[int] = []) -> np.ndarray:
